@@ -70,7 +70,20 @@ def shipped_specs(name):
     return copy.deepcopy(a), copy.deepcopy(b)
 
 
+def _marathon(rng, focus):
+    """One-bead molecules far apart, translations only, tiny steps: a steadily improving search of ~1e5 iterations.
+    Nothing in the rules of the search depends on how long it has been running."""
+    sep = rng.choice([300.0, 500.0])
+    start = {"name": "SPC", "atom_names": ["C1"], "resnames": ["SPC"], "resids": [1], "edges": [], "positions": [[0.0, 0.0, 0.0]]}
+    end = {"name": "SPC", "atom_names": ["C1"], "resnames": ["SPC"], "resids": [1], "edges": [], "positions": [[sep, 0.0, 0.0]]}
+    return {"focus": focus, "mode": "direct", "reassign": None, "start": start, "end": end, "restraints": [], "deform": [0],
+            "auto_guess": None, "ignore_h": False, "steps_factor": 1, "sigma_scale": 0.5, "np_seed": rng.randrange(2 ** 32),
+            "script": {"sites": {}, "seed": 0}, "n_steps": 30, "marathon": True, "displacement": 0.01}
+
+
 def generate(rng, tier, focus):
+    if focus == "C09" and rng.random() < (0.0008 if tier == "quick" else 0.0004):
+        return _marathon(rng, focus)
     if rng.random() < (0.015 if tier == "quick" else 0.04):
         name = rng.choice(sorted(SHIPPED_PAIRS))
         try:
@@ -950,6 +963,8 @@ def execute(trace, ctx):
         ctx.probe("two_piece_mobile_direct")
     if trace.get("unit_scale"):
         ctx.probe("other_length_units")
+    if trace.get("marathon"):
+        ctx.probe("marathon_search_1e5_iterations")
     if outcome == "extra-draw":
         return
     if outcome.startswith("raised"):
@@ -1053,7 +1068,7 @@ def _drive(trace, ali, restr, deform, ctx, B, info, watch):
             sim = deform if deform is not None else ((0, 1, 2) if len(mobile) >= 2 else (0,))
             A.minimize_molecules(fixed.atoms_positions, mobile.atoms_positions, mobile.geometric_center,
                                  trace["sigma_scale"], trace["n_steps"], r, mobile.bonds_distance,
-                                 0.2 * float(trace.get("unit_scale") or 1.0), sim)
+                                 float(trace.get("displacement") or 0.2) * float(trace.get("unit_scale") or 1.0), sim)
         return "ok"
     except ExtraDraw:
         return "extra-draw"
